@@ -3,7 +3,7 @@
     double quote, comma, digits, space) is ever consumed as the second byte of a double-byte character, whatever
     bytes a comment contains, so comments cannot swallow the end of their line or open a string. *)
 From Coq Require Import List ZArith String Bool Lia.
-From Gosk Require Import Base.Bytes Model.Cli Spec.Sjis.
+From Gosk Require Import Base.Bytes Model.Ast Model.Asm Model.Top Model.Encoder Model.Cli Spec.Sjis.
 Import ListNotations.
 Local Open Scope Z_scope.
 
@@ -24,6 +24,43 @@ Proof.
       repeat split; intros; try lia; try discriminate; try congruence; eauto.
 Qed.
 Print Assumptions C19_exit_table.
+
+(** exit status 0 characterised in both directions *)
+Theorem C19_success_iff : forall nargs s d parsed a,
+  fst (cli nargs s d parsed a) = 0 <->
+  ((2 <= nargs)%nat /\ s = SrcOk /\ parsed = true /\ d = DstCreatable /\ exists img, a = AsmImage img).
+Proof.
+  intros nargs s d parsed a. unfold cli. destruct (Nat.ltb nargs 2) eqn:En.
+  - apply Nat.ltb_lt in En. split; [cbn; discriminate | intros [H _]; lia].
+  - apply Nat.ltb_ge in En. split.
+    + destruct s, parsed, d, a; cbn; intros H; try discriminate H; repeat split; try assumption; eauto.
+    + intros [_ [Hs [Hp [Hd [img Ha]]]]]. subst. reflexivity.
+Qed.
+Print Assumptions C19_success_iff.
+
+(* the five statuses the program can end with *)
+Theorem C19_status_set : forall nargs s d parsed a,
+  In (fst (cli nargs s d parsed a)) [0; 2; 16; 17; 255].
+Proof.
+  intros nargs s d parsed a. unfold cli. destruct (Nat.ltb nargs 2); [cbn; tauto|].
+  destruct s, parsed, d, a; cbn; tauto.
+Qed.
+Print Assumptions C19_status_set.
+
+(* composed with the assembler model: status 0 is returned exactly for the programs the model assembles,
+   and the file then holds exactly the image the model computes; in every other case no image is written *)
+Theorem C19_written_is_model_image : forall nargs s d parsed p code eff,
+  cli nargs s d parsed (asm_result_of (assemble_file gosk_encoder p)) = (code, eff) ->
+  (code = 0 -> exists img st, assemble_file gosk_encoder p = FDone img st /\ eff = Written img)
+  /\ (code <> 0 -> forall img, eff <> Written img).
+Proof.
+  intros nargs s d parsed p code eff H. unfold cli in H.
+  destruct (Nat.ltb nargs 2); [inversion H; subst; split; [discriminate | intros _ img; discriminate]|].
+  destruct s, parsed, d; try (inversion H; subst; split; [discriminate | intros _ img; discriminate]).
+  destruct (assemble_file gosk_encoder p) as [img st| | |] eqn:Ea; cbn in H; inversion H; subst;
+    (split; [intros Hc; try discriminate Hc; eauto | intros Hc img'; try discriminate; congruence]).
+Qed.
+Print Assumptions C19_written_is_model_image.
 
 Theorem C19_sjis_low_bytes_survive : forall fuel (bs : list Z) i b,
   (Datatypes.length bs <= fuel)%nat -> nth_error bs i = Some b -> 0 <= b < 64 -> nth_error (units fuel bs) i = Some true.
